@@ -26,7 +26,7 @@ ASSUMPTIONS = ['ref/dispatch.py + ref/match.py are the trusted reading of the st
                'returned / uncaught ValueError']
 
 PATTERNS = ['/a', '/a/', '/<x>', '/a/<y?>', '/b']
-METHODS = [None, ['GET'], ['POST'], ['GET', 'POST']]
+METHODS = [None, ['GET'], ['POST'], ['get', 'Post']]      # the last one is declared in lower / mixed case
 BEHAVIOURS = ['answer', 'break4', 'break5', 'nb404r', 'nb403t', 'boom']
 REQ_PATHS = ['/a', '/a/', '/b', '/zz', '/a/q', '/a//q']
 REQ_METHODS = ['GET', 'HEAD', 'POST', 'PUT', 'get', 'FOO']
@@ -134,6 +134,8 @@ class Harness(object):
                 return GET(p, ep)
             if m == ['POST']:
                 return POST(p, ep)
+            if m == ['get', 'Post']:
+                return Route(p, ep, methods=('post', 'GET'))
         return Route(p, ep, methods=m)
 
     def build(self, table, mode, order=None):
